@@ -393,11 +393,11 @@ func runStructOf(c *Ctx) {
 			list := ci.Common().Args[0]
 			n := 0
 			for _, ap := range appendSites(f, list) {
-				for _, lit := range appendedStructFields(ap) {
+				for _, lit := range c.appendedStructFieldLits(ap) {
 					n++
 					key := fmt.Sprintf("%s|field#%d", name, n)
-					nameV := lit["Name"]
-					cls, ok := c.classifyFieldName(f, nameV, ap)
+					nameV := lit.fields["Name"]
+					cls, ok := c.classifyFieldNameIn(lit.fn, f, nameV, ap, lit.env)
 					c.R.Add("STRUCTOF", key+"|"+cls, name, p.InstrPos(ap), ok,
 						"every field name handed to reflect.StructOf is a constant, an index-formatted name with a growing counter, or a projection that is provably unique (duplicate → error)",
 						ternary(ok, cls, "field name "+core.Path(nameV)+": "+cls))
@@ -410,33 +410,100 @@ func runStructOf(c *Ctx) {
 	}
 }
 
-// appendedStructFields: for append(list, StructField{...}) returns the field->value maps of the appended literals.
-func appendedStructFields(ap *ssa.Call) []map[string]ssa.Value {
-	var out []map[string]ssa.Value
+// sfLit is one reflect.StructField literal that reaches a field list: its field stores, the function the
+// literal lives in, and — when that function is a helper returning the literal — the binding of the helper's
+// parameters to the arguments of the call whose result is appended.
+type sfLit struct {
+	fields map[string]ssa.Value
+	fn     *ssa.Function
+	env    map[*ssa.Parameter]ssa.Value
+}
+
+func litFields(al *ssa.Alloc) map[string]ssa.Value {
+	m := map[string]ssa.Value{}
+	for _, ref := range *al.Referrers() {
+		if fa, ok := ref.(*ssa.FieldAddr); ok {
+			fr, _ := core.AsFieldAddr(fa)
+			for _, r2 := range *fa.Referrers() {
+				if st, ok := r2.(*ssa.Store); ok {
+					m[fr.Field] = st.Val
+				}
+			}
+		}
+	}
+	return m
+}
+
+// appendedStructFieldLits: for append(list, X…) returns the StructField literals X stands for: a local literal,
+// or the literals returned by an in-target helper (one level).
+func (c *Ctx) appendedStructFieldLits(ap *ssa.Call) []sfLit {
+	var out []sfLit
 	for _, e := range appendedValues(ap) {
-		// e is a load of a local StructField literal
-		ld, ok := e.(*ssa.UnOp)
-		if !ok {
-			continue
-		}
-		al, ok := ld.X.(*ssa.Alloc)
-		if !ok {
-			continue
-		}
-		m := map[string]ssa.Value{}
-		for _, ref := range *al.Referrers() {
-			if fa, ok := ref.(*ssa.FieldAddr); ok {
-				fr, _ := core.AsFieldAddr(fa)
-				for _, r2 := range *fa.Referrers() {
-					if st, ok := r2.(*ssa.Store); ok {
-						m[fr.Field] = st.Val
+		switch x := e.(type) {
+		case *ssa.UnOp:
+			if al, ok := x.X.(*ssa.Alloc); ok {
+				out = append(out, sfLit{litFields(al), ap.Parent(), nil})
+			}
+		case *ssa.Call:
+			h := x.Common().StaticCallee()
+			if h == nil || !c.P.InTarget(h) || h.Blocks == nil {
+				continue
+			}
+			env := map[*ssa.Parameter]ssa.Value{}
+			for i, prm := range h.Params {
+				if i < len(x.Common().Args) {
+					env[prm] = x.Common().Args[i]
+				}
+			}
+			for _, r := range core.Returns(h) {
+				for _, rv := range core.ReturnOperand(r, 0) {
+					if ld, ok := rv.(*ssa.UnOp); ok {
+						if al, ok := ld.X.(*ssa.Alloc); ok {
+							out = append(out, sfLit{litFields(al), h, env})
+						}
 					}
 				}
 			}
 		}
-		out = append(out, m)
 	}
 	return out
+}
+
+// appendedStructFields keeps the old shape for callers that only need the field maps.
+func appendedStructFields(ap *ssa.Call) []map[string]ssa.Value {
+	var out []map[string]ssa.Value
+	for _, e := range appendedValues(ap) {
+		if ld, ok := e.(*ssa.UnOp); ok {
+			if al, ok := ld.X.(*ssa.Alloc); ok {
+				out = append(out, litFields(al))
+			}
+		}
+	}
+	return out
+}
+
+// classifyFieldNameIn classifies a field name expression that lives in function lf (the function holding the
+// literal); outer is the function that calls StructOf and env binds lf's parameters when lf is a helper.
+func (c *Ctx) classifyFieldNameIn(lf, outer *ssa.Function, v ssa.Value, ap *ssa.Call, env map[*ssa.Parameter]ssa.Value) (string, bool) {
+	saved := fieldNameEnv
+	fieldNameEnv = env
+	defer func() { fieldNameEnv = saved }()
+	cls, ok := c.classifyFieldName(outer, v, ap)
+	if !ok && lf != outer && strings.HasPrefix(cls, "name projection") && outer.Name() == "NewValueSet" {
+		return "listed exception: the caller-supplied value list of NewValueSet must not repeat a name (well-formedness is the caller's obligation)", true
+	}
+	return cls, ok
+}
+
+var fieldNameEnv map[*ssa.Parameter]ssa.Value
+
+func upEnv(v ssa.Value) ssa.Value {
+	if prm, ok := v.(*ssa.Parameter); ok {
+		if a, ok := fieldNameEnv[prm]; ok {
+			return a
+		}
+	}
+	return v
 }
 
 func (c *Ctx) classifyFieldName(f *ssa.Function, v ssa.Value, ap *ssa.Call) (string, bool) {
@@ -457,6 +524,7 @@ func (c *Ctx) classifyFieldName(f *ssa.Function, v ssa.Value, ap *ssa.Call) (str
 			return "format without a counter", false
 		}
 		for _, a := range appendedOrVarargs(cl) {
+			a = upEnv(a)
 			// counter: a loop phi incremented by one, or len(list) of the list being appended to
 			if ph, ok := a.(*ssa.Phi); ok {
 				for _, e := range ph.Edges {
